@@ -406,6 +406,15 @@ def rule_r2(ctx):
             for ck in owners:
                 allowed |= WRITERS[(ck, w.field)]
             ok = f.key in allowed
+            if not ok:
+                # a private helper that exists only as a part of its callers (every call of it is expanded, sa/inline.py)
+                # writes on their behalf: the same write is examined inside each of them
+                tc = repo.transparent_callers(f)
+                if tc is not None and all(k in allowed or k == f.key or repo.transparent_callers(repo.find_func(k)) is not None
+                                          for k in tc if repo.find_func(k) is not None and repo.find_func(k).parent is None):
+                    ctx.ob("R2", f"{f.key}: {w.kind} {norm(w.attr)} (helper expanded into {len(tc)} caller(s))", True, nontrivial=False,
+                           how="transparent helper: the write is checked in the functions it is expanded into")
+                    continue
             ctx.check(
                 "R2", f"{f.key}: {w.kind} {norm(w.attr)}" + (" [untyped receiver]" if untyped else ""),
                 ok, f, w.stmt,
